@@ -7,17 +7,18 @@ unset RUSTFLAGS
 LOG=${1:-/tmp/baseline_$$.log}
 cargo nextest run --workspace --no-fail-fast --tool-config-file pb:/w/lib/nextest.toml --profile pb --test-threads 8 --offline >"$LOG" 2>&1
 python3 - "$LOG" <<'PY'
-import json,re,sys
+import json,sys,xml.etree.ElementTree as ET
 base=set(json.load(open('/root/.vp/BASELINE.json'))['stable_pass'])
-passed=set()
-for l in open(sys.argv[1],errors='replace'):
-    m=re.match(r'\s*PASS\s+\[[^\]]*\]\s+(\S+)\s+(\S+)',l)
-    if m:
-        binid,name=m.group(1),m.group(2)
-        # lzma-rust2::lzip round_trip_executable_0  /  lzma-rust2 filter::bcj::tests::...
-        passed.add(f"{binid}::{name}" if '::' in binid else f"{binid}::{name}")
+passed=set(); failed=set()
+root=ET.parse('/repo/target/nextest/pb/junit.xml').getroot()
+for suite in root.iter('testsuite'):
+    sname=suite.get('name')
+    for tc in suite.iter('testcase'):
+        name=f"{sname}::{tc.get('name')}"
+        bad=any(ch.tag in ('failure','error') for ch in tc)
+        (failed if bad else passed).add(name)
 missing=sorted(t for t in base if t not in passed)
-print(f"baseline tests: {len(base)}  passing now: {len(base)-len(missing)}  missing: {len(missing)}")
+print(f"baseline tests: {len(base)}  passing now: {len(base)-len(missing)}  missing: {len(missing)}  (suite total: {len(passed)} passed, {len(failed)} failed)")
 for t in missing[:20]: print("  MISSING", t)
 sys.exit(1 if missing else 0)
 PY
